@@ -124,7 +124,7 @@ def work(prop_id: str, seed: int, tier: str, start: int, stop: int, wall_cap: fl
 
 
 def _slim(out):
-    return {k: out.get(k) for k in ("status", "oracle", "message", "env_index", "details") if k in out}
+    return {k: out.get(k) for k in ("status", "oracle", "message", "env_index", "details", "tape") if k in out}
 
 
 def _cap_per_class(vs, n):
@@ -145,6 +145,15 @@ def minimise(mod, prop_id, case, outcome, kf, deadline):
 
     target = outcome["oracle"]
     tried = 0
+    # schedule: make the recorded choice tape explicit so that it can be simplified like everything else
+    # (lenient replay: a missing entry means "lowest runnable core", DESIGN.md 7)
+    if outcome.get("tape") and outcome.get("env_index") is not None and "envs" in case:
+        env = dict(case["envs"][outcome["env_index"]], tape=outcome["tape"])
+        cand = dict(case, envs=[env])
+        out = safe_execute(mod, cand)
+        tried += 1
+        if out["status"] == "violation" and out["oracle"] == target:
+            case, outcome = cand, _slim(out)
     pos = 0  # resume where the last success happened: earlier candidates already failed once
     full_pass_without_success = False
     while not full_pass_without_success and time.time() < deadline:
